@@ -39,6 +39,8 @@ pub struct GenOpts {
     pub multi_iter: bool,
     /// chance (percent) that a chunk size is at the edge of usize (known-size kinds only)
     pub huge_pct: u64,
+    /// chance (percent) that a wrapped iterator is not fused
+    pub nonfused_pct: u64,
 }
 
 impl GenOpts {
@@ -71,6 +73,7 @@ impl GenOpts {
             call_granular: false,
             multi_iter: false,
             huge_pct: 0,
+            nonfused_pct: 0,
         }
     }
 }
@@ -114,6 +117,7 @@ pub fn opts_for(prop: &str) -> GenOpts {
             o.min_threads = 1;
         }
         "C05" => {
+            o.nonfused_pct = 40;
             o.w_query = 10;
             o.extra_max = 24;
             o.max_ops = 3;
@@ -571,6 +575,21 @@ pub fn generate_with(prop: &str, o: &GenOpts, base_seed: u64, index: u64) -> Run
         } else {
             0
         },
+        tail: {
+            // non-fused wrapped iterator (only with a hint that does not promise a length, and not
+            // followed by into_seq_iter, whose result for a non-fused source is not specified)
+            let t = rng.range(1, 3);
+            if o.nonfused_pct > 0
+                && kind.is_iter()
+                && hint != Hint::Exact
+                && terminal == Terminal::Drop
+                && rng.chance(o.nonfused_pct, 100)
+            {
+                t
+            } else {
+                0
+            }
+        },
         sim,
     }
 }
@@ -739,6 +758,7 @@ pub fn generate_c16(base_seed: u64, index: u64, schedules_per_point: u64) -> Run
         },
         panic: None,
         consume_nth: ((index / 7) % 3) as usize % 2,
+        tail: 0,
         sim,
     }
 }
